@@ -13,6 +13,7 @@ mod s_c01;
 mod s_c02;
 mod s_c04;
 mod s_c06;
+mod s_c07;
 mod s_c08;
 mod s_c09;
 mod s_c10;
@@ -72,6 +73,7 @@ fn main() {
         "C02" => s_c02::run(&mut em, thorough, seed),
         "C04" => s_c04::run(&mut em, thorough, seed),
         "C06" => s_c06::run(&mut em, thorough, seed),
+        "C07" => s_c07::run(&mut em, thorough, seed),
         "C08" => s_c08::run(&mut em, thorough, seed),
         "C09" => s_c09::run(&mut em, thorough, seed),
         "C10" => s_c10::run(&mut em, thorough, seed),
